@@ -266,6 +266,8 @@ class World:
     def setup(self):
         from sim.tap import tap_events
         self.empty_inflight = {}
+        self.shared_queues = []      # QueuedEvents forwarded to a nested queue event (identity list, no hashing)
+        self.waited_queues = []      # QueuedEvents on which one of our handlers already waited once
         self.qep2_used = False
         self.qep_requested = False
         for mname, mc in MODES.items():
@@ -367,6 +369,22 @@ class World:
             if spec["kind"] == "wait":
                 if spec["ev"] in MSTART:
                     self.ctx.probe("mode_starting_waiter")
+                if spec.get("rewait"):
+                    # legal per the QueuedEvent API: wait, clear, wait again (never double-wait / double-clear)
+                    self.ctx.probe("rewait_same_queue")
+                    pre = self.new_token(inst, queue, hid)
+                    try:
+                        queue.wait()
+                    except AssertionError as e:
+                        self.ctx.violation("queue_state", str(e), "first wait() of handler %r of %r raised %r"
+                                           % (hkey, inst, e))
+                        return
+                    self.wait_begin(inst, pre["wid"], "h%d-pre" % hid)
+                    self.clear_token(pre, "now")
+                if any(q is queue for q in self.waited_queues):
+                    self.ctx.probe("shared_queue_second_wait")
+                else:
+                    self.waited_queues.append(queue)
                 tok = self.new_token(inst, queue, hid)
                 try:
                     queue.wait()
@@ -392,7 +410,7 @@ class World:
                     if c[2] in QEV:
                         self.ctx.probe("nested_queue_in_waiting_handler")
                     self.post_event(c[1], c[2], c[3], on_done=lambda: self.clear_token(tok, "nested"))
-            self.run_acts(spec["acts"], inst)
+            self.run_acts(spec["acts"], inst, queue, kwargs)
         return handler
 
     def _mk_coro_handler(self, spec):
@@ -432,6 +450,10 @@ class World:
             self.enter(inst, ("h", hid), spec["prio"], None)
             expected = dict(inst.cur)
             expected.update(spec.get("reg", {}))
+            if any(k in inst.cur for k in spec.get("reg", {})):
+                self.ctx.probe("relay_reg_collides_posted")
+            if isinstance(spec["ret"], dict) and any(k in spec["ret"] for k in spec.get("reg", {})):
+                self.ctx.probe("relay_ret_collides_reg")
             if kwargs != expected:
                 self.ctx.violation("relay_args", inst.name, "relay handler %d of %r saw %r, posted %r updated by "
                                    "earlier handlers (+ its registered kwargs) is %r"
@@ -497,9 +519,23 @@ class World:
         self.log("post_c", c)
         self.ev.post(c)
 
-    def run_acts(self, acts, inst):
+    def run_acts(self, acts, inst, queue=None, kwargs=None):
         for act in acts or []:
-            if act[0] == "post":
+            if act[0] == "postfwd":
+                # Re-post the received kwargs *including the queue* on a nested queue event: every handler of
+                # the nested event is handed this one QueuedEvent (the dispatcher takes `queue` from the posted
+                # kwargs).  Legal only while the queue is unlocked and not already shared with another
+                # dispatcher (two dispatchers on one queue could double-wait), otherwise an ordinary post.
+                self.ctx.probe("nested_post_in_handler")
+                if queue is None or queue.waiter or any(q is queue for q in self.shared_queues):
+                    self.post_event("queue", act[1], act[2])
+                else:
+                    self.shared_queues.append(queue)
+                    self.ctx.probe("forwarded_queue_nested")
+                    extra = {k: v for k, v in (kwargs or {}).items() if k not in ("iid", "src", "mode")}
+                    extra.update(act[2])
+                    self.post_event("queue", act[1], extra, fwd_queue=queue)
+            elif act[0] == "post":
                 self.ctx.probe("nested_post_in_handler")
                 if inst.waits and act[2] in QEV:
                     self.ctx.probe("nested_queue_in_waiting_handler")
@@ -511,7 +547,7 @@ class World:
                 self.clear_pool(act[1], "direct")
 
     # ------------------------------------------------------------------ posting
-    def post_event(self, how, ev, kw, on_done=None):
+    def post_event(self, how, ev, kw, on_done=None, fwd_queue=None):
         if len(self.all) >= INST_CAP:
             self.skipped_posts += 1
             self.log("post_skipped", ev)
@@ -536,7 +572,9 @@ class World:
 
         def cb(**k):
             self._completed(inst, k)
-        if how == "queue":
+        if how == "queue" and fwd_queue is not None:
+            self.ev.post_queue(ev, callback=cb, queue=fwd_queue, **full)
+        elif how == "queue":
             self.ev.post_queue(ev, callback=cb, **full)
         elif how == "relay":
             self.ev.post_relay(ev, callback=cb, **full)
